@@ -19,7 +19,8 @@ DECIDED = [
     "SECURE-ZERO: the zeroing memset is followed by a volatile asm barrier that takes the buffer as operand with a memory clobber",
 ]
 NOT_DECIDED = ["byte-for-byte content equality across call sequences", "accesses through caller-provided raw pointers without a stated extent (out-parameters)"]
-ASSUMPTIONS = list(LIB_ASSUMPTIONS) + ["distinct pointer parameters designate distinct record objects (most are declared restrict)",
+ASSUMPTIONS = list(LIB_ASSUMPTIONS) + ["views and buffers handed in are valid (aws_byte_cursor_is_valid / aws_byte_buf_is_valid): a NULL pointer comes with length and capacity 0",
+                                       "distinct pointer parameters designate distinct record objects (most are declared restrict)",
                                        "caller-provided (pointer, length) parameter pairs listed in rules/C01.py PAIRS are readable/writable for that length (the functions' documented preconditions)"]
 
 # documented (pointer parameter -> extent) contracts: name of the length parameter, or a constant
